@@ -105,6 +105,14 @@ static void check_document(cs::Ctx& ctx, cs::Src* s, JsonDocument& doc, bool all
     std::ostringstream os;
     size_t r2 = serializeMsgPack(v, os);
     if (os.str() != T || r2 != T.size()) ctx.fail("ostream", "std::ostream received different bytes or count");
+    {
+      std::ostringstream osf;  // formatting state must not leak into the bytes
+      osf.width(4);
+      osf.fill('*');
+      osf << std::hex << std::showbase;
+      r2 = serializeMsgPack(v, osf);
+      if (osf.str() != T || r2 != T.size()) ctx.fail("ostream", "std::ostream with a field width received different bytes or count");
+    }
     CustomWriter w;
     r2 = serializeMsgPack(v, w);
     if (w.out != T || r2 != T.size()) ctx.fail("custom-writer", "custom writer received different bytes or count");
